@@ -54,9 +54,26 @@ def rule_a(chk, f):
     # carry prepended
     pre = [n for n in g.nodes if n.kind == 'stmt' and isinstance(n.ast, ast.Assign) and src(n.ast.targets[0]) == dv and
            src(n.ast.value).replace(' ', '') == f'self._buffer+{dv}']
-    loops = [n for n in g.nodes if n.kind == 'join' and isinstance(n.ast, ast.While) and src(n.ast.test) == dv]
-    need(loops, 'C17.a: no `while data:` frame loop')
+    # the frame loop: the while loop in which a decoded frame is cut off the data (`data = data[offset:]`)
+    def consumes(w):
+        return any(isinstance(n, ast.Assign) and src(n.targets[0]) == dv and src(n.value).replace(' ', '').startswith(f'{dv}[') for n in walk_no_defs(w))
+    loops = [n for n in g.nodes if n.kind == 'join' and isinstance(n.ast, ast.While) and consumes(n.ast)]
+    need(loops, 'C17.a: no frame loop (a while loop that cuts decoded frames off the data)')
     head = loops[0]
+    # leaving the loop through its condition: either nothing is left (`while data:`) or what is left is stored as carry
+    cond_ids = {id(x) for x in ast.walk(head.ast.test)}
+    keeps0 = [n for n in g.nodes if n.kind == 'stmt' and 'self' in pat.stores_attr(n.ast, '_buffer') and src(n.ast.value) == dv]
+    for tn in g.nodes:
+        if tn.kind != 'test' or id(tn.ast) not in cond_ids:
+            continue
+        for e in tn.succ:
+            if e.kind not in ('T', 'F') or ('loop', head.ast) in e.dst.ctx:
+                continue
+            empty = (e.kind == 'F' and src(tn.ast) == dv) or pat.fact_matches(pat.compare_fact(tn.ast, e.kind), f'len({dv})', ('==', '<='), '0') or \
+                pat.fact_matches(pat.compare_fact(tn.ast, e.kind), f'len({dv})', ('<',), '1')
+            p = None if empty else Q.escapes(g, [e.dst], lambda n: n in keeps0, exits=('exit',)) if e.dst not in keeps0 else None
+            chk.ob('a', f.ref, 'when the frame loop ends through its condition, nothing is left undecoded or the remainder is stored as carry', empty or p is None,
+                   loc(f, tn.ast), detail=f'`while {src(head.ast.test)}`', path=pat.path_lines(p) if p else None, discr='loop-exit-keeps-remainder')
     q = Q.reachable_without(g, head, avoid_node=lambda n: n in pre)
     chk.ob('a', f.ref, 'the undecoded tail of the previous read is prepended to the new data before decoding', q is None and bool(pre), loc(f, head.ast),
            path=pat.path_lines(q) if q else None, discr='carry-prepended')
@@ -280,6 +297,25 @@ def rule_e(repo, chk, cls, f):
                discr='pong-payload')
         q = pat.guarded_by(g, n, pat.test_edge(lambda t, pol: pol == 'F' and src(t) == 'self._close_sent'))
         chk.ob('e', f.ref, 'no pong is written after a close frame was sent', q is None, loc(f, n.ast), discr='pong-close-guard')
+    # the close-sent state is what the write guards test: every close frame that is written must be recorded, wherever it is written
+    n_close = 0
+    for m in cls.methods.values():
+        gm = m.cfg()
+        for n in gm.nodes:
+            if n.kind != 'stmt':
+                continue
+            cw = [c for r, c in pat.method_calls(n.ast, '_write') if r == 'self' and c.args and isinstance(c.args[0], ast.Constant) and isinstance(c.args[0].value, bytes)
+                  and c.args[0].value[:1] == b'\x88']
+            if not cw:
+                continue
+            n_close += 1
+            chk.touch(m)
+            sets = [x for x in gm.nodes if x.kind == 'stmt' and 'self' in pat.stores_attr(x.ast, '_close_sent', True)]
+            p = Q.escapes(gm, [n], lambda x: x in sets, exits=('exit',))
+            once = pat.guarded_by(gm, n, pat.test_edge(lambda t, pol: pol == 'F' and src(t) == 'self._close_sent'))
+            chk.ob('e', m.ref, 'a close frame is written only if none was sent before, and writing it is recorded (so that nothing is sent after it)',
+                   p is None and bool(sets) and once is None, loc(m, n.ast), path=pat.path_lines(p or once) if (p or once) else None, discr=f'close-frame-recorded:{m.name}')
+    need(n_close >= 1, 'C17.e: no close frame is written anywhere in the codec')
     # write handler
     w = need(cls.methods.get('_on_write'), 'C17.e: write handler missing')
     chk.touch(w)
